@@ -110,21 +110,32 @@ func EnumConfigs() []Config {
 	return out
 }
 
+// Bounds are the word-length bounds of Enumerate.
+type Bounds struct {
+	Fresh        int // |w| after the empty prefix, no-app channels
+	FreshPayment int // |w| after the empty prefix, payment-app channels
+	Prefixed     int // |w| after every other canonical prefix
+}
+
 // Enumerate visits every sequence p·w where p is a canonical prefix of the
-// config and w is any word over Alphabet(cfg) with |w| <= depthFresh for the
-// empty prefix and |w| <= depthPrefixed for the others.  Sequences are
-// numbered in visiting order and only those with number % nshards == shard are
-// visited.  The ops slice passed to visit is freshly allocated.  It returns
-// the total number of sequences of the (unsharded) space.
-func Enumerate(depthFresh, depthPrefixed, shard, nshards int, visit func(cfg Config, prefix string, plen int, ops []Op) bool) int {
+// config and w is any word over Alphabet(cfg) with |w| <= b.Fresh
+// (b.FreshPayment on payment-app channels) for the empty prefix and
+// |w| <= b.Prefixed for the others.  Sequences are numbered in visiting order
+// and only those with number % nshards == shard are visited.  The ops slice
+// passed to visit is freshly allocated.  It returns the total number of
+// sequences of the (unsharded) space.
+func Enumerate(b Bounds, shard, nshards int, visit func(cfg Config, prefix string, plen int, ops []Op) bool) int {
 	total := 0
 	stop := false
 	for _, cfg := range EnumConfigs() {
 		alpha := Alphabet(cfg)
 		for _, p := range Prefixes(cfg) {
-			depth := depthPrefixed
+			depth := b.Prefixed
 			if len(p.Ops) == 0 {
-				depth = depthFresh
+				depth = b.Fresh
+				if cfg.App == "payment" {
+					depth = b.FreshPayment
+				}
 			}
 			word := make([]int, 0, depth)
 			var rec func()
